@@ -31,18 +31,30 @@ ASSUMPTIONS = [
     "clients touch a queue only through put/put_nowait/get/get_nowait/task_done/join/qsize/empty/full and through cancel() on the futures these return",
     "callbacks queued on the loop run only at Drain / Expire events (the schedule says where)",
 ]
-RULE = ("schedules over {put, put_nowait, get, get_nowait, task_done, join, expire k, cancel k, drain} for Queue/LifoQueue/PriorityQueue x maxsize 0..3; "
+RULE = ("schedules over {put, put_nowait, get, get_nowait, async-iteration next, task_done, join, expire k, cancel k, drain} with timeouts None / absolute / timedelta / 0 / 0.0 / timedelta(0) "
+        "for Queue/LifoQueue/PriorityQueue x maxsize 0..3 (+ rejected constructor arguments None, negative); "
         "quick: random structured schedules (length <= 14) + scenario families; thorough: additionally all schedules up to a bounded length over a reduced alphabet; "
         "distinct by (class, maxsize, schedule); non-trivial = at least one waiter blocked or one item moved")
 EXHAUSTIVE = {"quick": False, "thorough": True}
 
 
 # ----------------------------------------------------------------------------
-# cases: {"k": 0|1|2, "m": maxsize, "ops": [[name, arg...], ...]}
-# ops: ["put", x, tmo] ["putn", x] ["get", tmo] ["getn"] ["done"] ["join", tmo] ["exp", k] ["can", k] ["drain"]
+# cases: {"k": 0|1|2, "m": maxsize argument (int, may be negative, or None), "ops": [[name, arg...], ...]}
+# ops: ["put", x, tmo] ["putn", x] ["get", tmo] ["getn"] ["next"] ["done"] ["join", tmo] ["exp", k] ["can", k] ["drain"]
+# tmo: 0/False none | 1/True absolute deadline | 2 timedelta (relative) deadline | 3 timeout=0 | 4 timeout=0.0 | 5 timedelta(0)
 # ----------------------------------------------------------------------------
 def mk(k, m, ops):
     return {"k": k, "m": m, "ops": [list(o) for o in ops]}
+
+
+def tcode(v):
+    return int(v)
+
+
+def tclass(v):
+    """0 = no timeout, 1 = a timer fired by `exp`, 2 = zero timeout (fires when the loop next runs)"""
+    v = int(v)
+    return 0 if v == 0 else 1 if v in (1, 2) else 2
 
 
 def _status(f):
@@ -60,6 +72,7 @@ def _status(f):
 
 
 def run_impl(case):
+    import datetime
     from tornado import queues
 
     cls = [queues.Queue, queues.LifoQueue, queues.PriorityQueue][case["k"]]
@@ -74,15 +87,31 @@ def run_impl(case):
 
     async def scenario(loop):
         base = loop.time()
-        q = cls(maxsize=m)
+        loop.set_exception_handler(lambda lp, ctx: None)   # timers left armed at the end may fire during teardown
+        try:
+            q = cls(maxsize=m)
+        except TypeError:
+            return G.Tag("TypeError")
+        except ValueError:
+            return G.Tag("ValueError")
         futs = []
-        trace = []
+        trace = [q.maxsize]
 
         def tmo_for(flag, j):
-            if not flag:
+            c = tcode(flag)
+            if c == 0:
                 return None
+            if c == 3:
+                return 0
+            if c == 4:
+                return 0.0
+            if c == 5:
+                return datetime.timedelta(0)
             p = deadline_pos(len(futs), j)
-            return base + (p + 1 if p is not None else 10 ** 6)
+            when = base + (p + 1 if p is not None else 10 ** 6)
+            if c == 2:
+                return datetime.timedelta(seconds=when - loop.time())
+            return when
 
         for j, o in enumerate(ops):
             name = o[0]
@@ -99,6 +128,10 @@ def run_impl(case):
                     r = [G.Tag("fut"), len(futs) - 1]
                 elif name == "getn":
                     r = q.get_nowait()
+                elif name == "next":
+                    f = q.__aiter__().__anext__()
+                    futs.append(f)
+                    r = [G.Tag("fut"), len(futs) - 1]
                 elif name == "done":
                     r = q.task_done()
                 elif name == "join":
@@ -135,20 +168,26 @@ def run_impl(case):
     return run_virtual(scenario)
 
 
+def g_tmo(v):
+    return ["TNone", "TTimer", "TZero"][tclass(v)]
+
+
 def g_op(o):
     n = o[0]
+    if n == "next":
+        return "Next"
     if n == "put":
-        return "Put %s %s" % (G.gz(o[1]), G.gbool(o[2]))
+        return "Put %s %s" % (G.gz(o[1]), g_tmo(o[2]))
     if n == "putn":
         return "PutNowait %s" % G.gz(o[1])
     if n == "get":
-        return "Get %s" % G.gbool(o[1])
+        return "Get %s" % g_tmo(o[1])
     if n == "getn":
         return "GetNowait"
     if n == "done":
         return "TaskDone"
     if n == "join":
-        return "Join %s" % G.gbool(o[1])
+        return "Join %s" % g_tmo(o[1])
     if n == "exp":
         return "Expire %s" % G.gnat(o[1])
     if n == "can":
@@ -159,7 +198,8 @@ def g_op(o):
 
 
 def coq_input(case):
-    return "(%s, %s, %s)" % (KINDS[case["k"]], G.gnat(case["m"]), G.glist([g_op(o) for o in case["ops"]], "op"))
+    msz = "MNone" if case["m"] is None else "(MInt %s)" % G.gz(case["m"])
+    return "(%s, %s, %s)" % (KINDS[case["k"]], msz, G.glist([g_op(o) for o in case["ops"]], "op"))
 
 
 # ----------------------------------------------------------------------------
@@ -169,9 +209,13 @@ def coq_input(case):
 def reference(case):
     import bisect
     kd, m, ops = case["k"], case["m"], case["ops"]
+    if m is None:
+        return G.Tag("TypeError")
+    if m < 0:
+        return G.Tag("ValueError")
     items, getters, putters, unf = [], [], [], 0
     futs = []   # [kind, tmo, status] ; status: "P","R",("v",x),"N","T","C"
-    trace = []
+    trace = [m]
 
     def full():
         return m > 0 and len(items) >= m
@@ -210,9 +254,11 @@ def reference(case):
         return None
 
     def drain():
-        for f in futs:
+        for k, f in enumerate(futs):
             if f[2] == "R":
                 f[2] = "N"
+            elif f[2] == "P" and f[1] == 2:
+                finish(k, "T")
 
     def finish(k, st):
         futs[k][2] = st
@@ -224,20 +270,21 @@ def reference(case):
         k = len(futs)
         if n == "put":
             if put_now(o[1]):
-                futs.append(["put", o[2], "N"])
+                futs.append(["put", tclass(o[2]), "N"])
             else:
-                futs.append(["put", o[2], "P"])
+                futs.append(["put", tclass(o[2]), "P"])
                 putters.append((o[1], k))
             r = [G.Tag("fut"), k]
         elif n == "putn":
             r = None if put_now(o[1]) else G.Tag("QueueFull")
-        elif n == "get":
+        elif n in ("get", "next"):
+            tc = tclass(o[1]) if n == "get" else 0
             z = get_now()
             if z is None:
-                futs.append(["get", o[1], "P"])
+                futs.append(["get", tc, "P"])
                 getters.append(k)
             else:
-                futs.append(["get", o[1], ("v", z)])
+                futs.append(["get", tc, ("v", z)])
             r = [G.Tag("fut"), k]
         elif n == "getn":
             z = get_now()
@@ -253,12 +300,12 @@ def reference(case):
                             f[2] = "R" if f[1] else "N"
                 r = None
         elif n == "join":
-            futs.append(["join", o[1], "N" if unf == 0 else "P"])
+            futs.append(["join", tclass(o[1]), "N" if unf == 0 else "P"])
             r = [G.Tag("fut"), k]
         elif n == "exp":
             drain()
             j = o[1]
-            if j < len(futs) and futs[j][2] == "P" and futs[j][1]:
+            if j < len(futs) and futs[j][2] == "P" and futs[j][1] == 1:
                 finish(j, "T")
             r = None
         elif n == "can":
@@ -293,9 +340,10 @@ def _same(a, b):
 
 
 def py_check(case, o):
-    if not isinstance(o, list) or len(o) != len(case["ops"]):
+    ref = reference(case)
+    if isinstance(ref, list) and (not isinstance(o, list) or len(o) != len(case["ops"]) + 1):
         return False
-    return _same(o, reference(case))
+    return _same(o, ref)
 
 
 # ----------------------------------------------------------------------------
@@ -316,6 +364,9 @@ def _rand_schedule(rng, n, m, item_mode):
             return rng.randrange(-3, 4)
         return rng.choice([0, 1, 1, 2, 5, -1, 7])
 
+    def rt():
+        return rng.choice([0, 0, 0, 0, 1, 1, 1, 2, 3, 3, 4, 5, 5])
+
     # phases bias the mix so that both blocked getters and blocked putters occur
     bias = rng.choice(["put", "get", "mix", "mix"])
     for _ in range(n):
@@ -324,20 +375,24 @@ def _rand_schedule(rng, n, m, item_mode):
         w_get = {"put": 0.15, "get": 0.45, "mix": 0.28}[bias]
         if r < w_put:
             if rng.random() < 0.75:
-                ops.append(["put", item(), rng.random() < 0.6])
+                ops.append(["put", item(), rt()])
                 nf += 1
             else:
                 ops.append(["putn", item()])
         elif r < w_put + w_get:
-            if rng.random() < 0.75:
-                ops.append(["get", rng.random() < 0.6])
+            r2 = rng.random()
+            if r2 < 0.65:
+                ops.append(["get", rt()])
+                nf += 1
+            elif r2 < 0.78:
+                ops.append(["next"])
                 nf += 1
             else:
                 ops.append(["getn"])
         elif r < w_put + w_get + 0.10:
             ops.append(["done"])
         elif r < w_put + w_get + 0.17:
-            ops.append(["join", rng.random() < 0.5])
+            ops.append(["join", rt()])
             nf += 1
         elif r < w_put + w_get + 0.30:
             ops.append(["exp", rng.randrange(0, nf + 1) if rng.random() < 0.9 else nf + 3])
@@ -362,6 +417,10 @@ def corpus_cases():
         # expired waiter behind a live one (only the head is popped by _consume_expired)
         out.append(mk(k, 1, [["putn", 1], ["put", 2, False], ["put", 3, True], ["put", 4, False], ["exp", 2], ["getn"], ["getn"], ["getn"], ["getn"]]))
         out.append(mk(k, 0, [["get", False], ["get", True], ["get", False], ["can", 1], ["putn", 1], ["putn", 2], ["putn", 3], ["getn"]]))
+        # zero timeouts: 0 / 0.0 / timedelta(0) raise when the loop next runs, or return at once
+        out.append(mk(k, 1, [["put", 1, 3], ["put", 2, 3], ["get", 4], ["get", 5], ["get", 3], ["drain"], ["putn", 7], ["getn"]]))
+        out.append(mk(k, 0, [["putn", 1], ["join", 3], ["join", 5], ["done"], ["join", 4], ["drain"], ["next"], ["next"], ["putn", 4]]))
+        out.append(mk(k, 1, [["putn", 1], ["join", 5], ["getn"], ["done"], ["drain"], ["get", 2], ["exp", 1], ["put", 3, 2], ["put", 4, 2], ["exp", 3]]))
     return out
 
 
@@ -390,6 +449,8 @@ def _families(rng):
     return out
 
 
+# zero timeouts (0 / 0.0 / timedelta(0)) and async iteration
+ALPHA_ZERO = [["put", None, 3], ["get", 5], ["next"], ["putn", None], ["getn"], ["join", 4], ["done"], ["drain"], ["can", "any"]]
 ALPHA_SMALL = [["put", None, True], ["get", True], ["putn", None], ["getn"], ["done"], ["join", True], ["exp", "any"], ["can", "any"]]
 
 
@@ -429,16 +490,24 @@ def gen_cases(rng, tier):
         m = rng.choice([0, 1, 1, 2, 2, 3])
         n = rng.choice([3, 6, 9, 12, 14])
         out.append(mk(k, m, _rand_schedule(rng, n, m, rng.randrange(4))))
+    # constructor argument handling
+    for k in range(3):
+        for m in (None, -1, -5):
+            out.append(mk(k, m, [["putn", 1], ["getn"]]))
     if tier == "quick":
         # all schedules of length 3 over the reduced alphabet, one class per maxsize (rotating)
         for m in range(4):
             out += list(_exhaustive([m % 3], [m], 3, ALPHA_SMALL, with_ids=1))
+        for m in (0, 1):
+            out += list(_exhaustive([(m + 1) % 3], [m], 3, ALPHA_ZERO, with_ids=1))
     else:
         ex = []
         for L in (1, 2, 3, 4):
             ex += list(_exhaustive([0, 1, 2], [0, 1, 2, 3], L, ALPHA_SMALL, with_ids=2))
         # length 5 for maxsize 1, where blocking happens at once (no join/task_done symbols)
         ex += list(_exhaustive([0, 1, 2], [1], 5, [a for a in ALPHA_SMALL if a[0] not in ("join", "done")], with_ids=2))
+        for L in (1, 2, 3, 4):
+            ex += list(_exhaustive([0, 1, 2], [0, 1, 2], L, ALPHA_ZERO, with_ids=1))
         for c in ex:
             c["x"] = 1          # exhaustive block: all cases go through the Python reference, 1 in 8 also through Coq
         out += ex
@@ -463,7 +532,10 @@ def nontrivial(case, o):
 
 def classify(case, o):
     yield "class=" + KINDS[case["k"]]
-    yield "maxsize=%d" % case["m"]
+    yield "maxsize=%s" % case["m"]
+    for x in case["ops"]:
+        if x[0] in ("put", "get", "join"):
+            yield "tmo=%d" % tcode(x[-1])
     n = len(case["ops"])
     yield "len=" + ("0-3" if n <= 3 else "4-6" if n <= 6 else "7-10" if n <= 10 else "11+")
     names = {x[0] for x in case["ops"]}
@@ -487,7 +559,7 @@ def classify(case, o):
 
 
 def signature(case, o):
-    return "%s-m%d" % (KINDS[case["k"]], min(case["m"], 1))
+    return "%s-m%s" % (KINDS[case["k"]], case["m"] if case["m"] is None else min(case["m"], 1))
 
 
 def shrink(case):
@@ -499,14 +571,14 @@ def shrink(case):
     for i, o in enumerate(ops):
         if o[0] in ("put", "get", "join") and o[-1]:
             o2 = list(o)
-            o2[-1] = False
+            o2[-1] = 0
             yield dict(case, ops=ops[:i] + [o2] + ops[i + 1:])
 
 
 LEVEL_TEXT = ("Machine-checked (Coq) proof, for every queue class, every maxsize and every schedule of put/put_nowait/get/get_nowait/task_done/join/"
               "timer expiry/cancellation/loop drain, that the line-by-line model of tornado.queues (lazy _consume_expired, hand-off through the container, "
               "Event-based join) produces exactly the observations of a sequential reference queue in which timed-out and cancelled waiters vanish at once, "
-              "plus invariants: conservation of items, maxsize bound, waiters imply empty/full, internal asserts unreachable, join pending iff unfinished > 0, "
+              "(zero timeouts fire when the loop next runs, async iteration is get(), the constructor rejects None/negative maxsize) plus invariants: conservation of items, maxsize bound, waiters imply empty/full, internal asserts unreachable, join pending iff unfinished > 0, "
               "extra task_done raises. The model is compared with the real classes on generated and exhaustively enumerated schedules on every run.")
 LEVEL_NOTE = ("Trusted: Coq kernel/vm_compute; asyncio loop and Future semantics as summarised by the Pending/Ready/done statuses; heapq returns a minimum; "
               "virtual-clock harness; correspondence harness.")
